@@ -45,6 +45,9 @@ _DTV = ["f64"]
 # shape variant: "mixed" (shape by alias class index: (), (2,), (2,2)) or "same" (every tensor has shape (3,):
 # several listed tensors of ONE shape with more than one element)
 _SHV = ["mixed"]
+# storage variant: "own" (every alias class has its own storage) or "shared" (the classes are DISTINCT tensor objects
+# that share one storage, dtype, shape and strides - t, t.detach(), ...: identity, not memory, defines a tensor)
+_STV = ["own"]
 
 
 def _cls_shape(k):
@@ -171,6 +174,7 @@ def cases(tier, seed):
                     continue
                 out.append({"spec": spec, "part": part, "nodes": n, "depth": 2, "dtv": "mixed"})
                 out.append({"spec": spec, "part": part, "nodes": n, "depth": 2, "shv": "same"})
+                out.append({"spec": spec, "part": part, "nodes": n, "depth": 2, "shv": "same", "stv": "shared"})
     # dictionary variants: every structure with <= 3 (quick) / 4 (thorough) nodes that contains a dictionary
     for n in range(2, (4 if tier == "quick" else 5)):
         for spec in _trees(n):
@@ -190,6 +194,9 @@ def build(spec, part):
     import math
     ctens = [(torch.arange(1, 1 + math.prod(_cls_shape(k)), dtype=torch.float64).reshape(_cls_shape(k)) + 10.0 * k
               ).to(_cls_dtype(k)) + _frac(_cls_dtype(k)) for k in range(nclass)]
+    if _STV[0] == "shared" and nclass > 1:
+        # distinct tensor OBJECTS that share storage, dtype, shape and strides (a tensor and detached handles of it)
+        ctens = [ctens[0]] + [ctens[0].detach() for _ in range(1, nclass)]
     slots = []
     tts = []
     counter = [0]
@@ -553,6 +560,7 @@ def run_case(cfg):
     _DVAR[0] = cfg.get("dvar", "dict")
     _DTV[0] = cfg.get("dtv", "f64")
     _SHV[0] = cfg.get("shv", "mixed")
+    _STV[0] = cfg.get("stv", "own")
     viol = []
     table = {}
     n_exec = 0
